@@ -28,7 +28,10 @@ RULE = ("cases = (2-4 datasets created in index order with the main dataset at a
         "or through track_queries of a real JavaScript transform; LatestOnly flag; batch size 1..4; history of write batches "
         "(1-3 entities of one dataset per StoreEntities call, 2-4 entity ids per dataset, references re-drawn on every write = "
         "rewiring, dangling and wrong-dataset targets, deletes and un-deletes) interleaved with job runs (incremental, fullsync, "
-        "scripted failure of the k-th sink call, 'repeat until the token stops moving')); a case is non-trivial when an "
+        "scripted failure of the k-th sink call, 'repeat until the token stops moving')); plus two engineered families: one "
+        "dependency entity connected to 3-4 main entities (fan-out > batch size) touched once, the sink failing at call 0..3, job "
+        "restarted to the fixpoint; and a scripted write to the dependency dataset from inside the sink callback after call k of a "
+        "multi-page full sync, then runs to the fixpoint; a case is non-trivial when an "
         "incremental run delivered entities found through a dependency or a scripted failure fired; distinct = distinct case tuples")
 TRUSTED = [
     "Store.GetRelatedAtTime (with its continuation paging at limit = batch size) is specified, not modelled: related(e) at instant t "
@@ -59,8 +62,13 @@ def W(ds, es):
     return {"op": "w", "ds": ds, "es": [{"id": i, "refs": [list(r) for r in refs], "del": bool(d)} for (i, refs, d) in es]}
 
 
-def R(full=False, fail=-1, fix=False):
-    return {"op": "run", "full": full, "fail": fail, "fix": fix}
+def R(full=False, fail=-1, fix=False, mid=None):
+    """mid = (after sink call k, dataset, entities): a scripted write DURING the (full sync) run"""
+    r = {"op": "run", "full": full, "fail": fail, "fix": fix}
+    if mid is not None:
+        k, ds, es = mid
+        r["mid"] = {"after": k, "ds": ds, "es": W(ds, es)["es"]}
+    return r
 
 
 def J(ds, pred, inv):
@@ -107,6 +115,14 @@ def witness_cases():
            [W(2, [(21, [], 0), (22, [], 0), (23, [], 1)]), W(1, [(11, [(2, 21), (2, 22)], 0), (12, [(2, 23)], 0)]),
             W(0, [(1, [(1, 11)], 0), (2, [(1, 12), (1, 11)], 0)]), R(), W(0, [(1, [(1, 12)], 0)]), R(),
             W(1, [(11, [(2, 22)], 0)]), R(fail=0), R(), R(True), R()], batch=1, track=True),
+        # plain behaviour: a dependency write between two pages of a full sync is picked up by the next run
+        mk(2, 0, [D(1, J(0, 1, True))],
+           [W(0, [(1, [(1, 11)], 0), (2, [], 0), (3, [], 0)]), W(1, [(11, [], 0)]),
+            R(full=True, mid=(0, 1, [(11, [], 0)])), R(fix=True)], batch=1),
+        # plain behaviour: fan-out 3 > batch 1, sink fails at its 2nd call, restart
+        mk(2, 0, [D(1, J(0, 1, True))],
+           [W(0, [(1, [(1, 11)], 0), (2, [(1, 11)], 0), (3, [(1, 11)], 0)]), W(1, [(11, [], 0)]), R(),
+            W(1, [(11, [], 0)]), R(fail=1), R(fix=True)], batch=1),
     ]
 
 
@@ -202,12 +218,66 @@ def rand_case(rng, maxops=12):
     return mk(nds, main, deps, ops, batch=rng.range(1, 4), latest=rng.chance(1, 4), track=track)
 
 
+def star(rng, nmain=None):
+    """one dependency entity (dataset 1, id 11/12) connected to several main entities (dataset 0, ids 1..4)
+    through one hop of a random direction; returns (deps, initial writes, the write that touches the hub entity)"""
+    n = nmain or rng.range(3, 4)
+    mains = list(range(1, n + 1))
+    inv = rng.chance(1, 2)
+    p = rng.range(1, 3)
+    linked = [m for m in mains if rng.chance(4, 5)] or mains[:2]
+    if inv:    # main entities point at 11
+        w_main = W(0, [(m, [(p, 11)] if m in linked else [], 0) for m in mains])
+        w_dep = W(1, [(11, [], 0), (12, [], 0)])
+        touch = (11, [], 0)
+    else:      # 11 points at the main entities
+        w_main = W(0, [(m, [], 0) for m in mains])
+        w_dep = W(1, [(11, [(p, m) for m in linked], 0), (12, [], 0)])
+        touch = (11, [(p, m) for m in linked], 0)
+    return [D(1, J(0, p, inv))], w_main, w_dep, touch, linked
+
+
+def fanout_case(rng):
+    """one dependency change fans out to more main entities than the batch size; the sink fails at call k; the job
+    is restarted until the tokens stop moving"""
+    deps, w_main, w_dep, touch, linked = star(rng)
+    ops = [w_main, w_dep, R()]
+    if rng.chance(1, 3):
+        ops.append(R())
+    ops.append(W(1, [touch]))
+    if rng.chance(1, 4):
+        ops.append(W(1, [(12, [], 0)]))
+    ops.append(R(fail=rng.range(0, 3)))
+    if rng.chance(1, 3):
+        ops.append(R(fail=rng.range(0, 2)))
+    ops.append(R(fix=True))
+    return mk(2, 0, deps, ops, batch=rng.choice([1, 1, 2, 2, 3]), latest=False)
+
+
+def midfull_case(rng):
+    """a dependency entity is written between two pages of a (multi-page) full sync; then runs to the fixpoint"""
+    deps, w_main, w_dep, touch, linked = star(rng, 4)
+    ops = [w_main, w_dep]
+    first = rng.chance(1, 2)
+    if not first:
+        ops += [R(), W(0, [(rng.range(1, 4), [], 0)])] if rng.chance(1, 2) else [R()]
+    mid = (rng.range(0, 3), 1, [touch] if rng.chance(3, 4) else [touch, (12, [], 0)])
+    ops.append(R(full=True, fail=rng.choice([-1, -1, -1, 2, 3]), mid=mid))
+    if rng.chance(1, 3):
+        ops.append(W(1, [(12, [], 0)]))
+    ops.append(R(fix=True))
+    return mk(2, 0, deps, ops, batch=rng.choice([1, 1, 2, 2, 3]), latest=False)
+
+
 def gen(rng, tier):
     if tier == "quick":
-        return [rand_case(rng) for _ in range(170)]
+        return ([rand_case(rng) for _ in range(130)] + [fanout_case(rng) for _ in range(30)]
+                + [midfull_case(rng) for _ in range(30)])
     if tier == "search":
-        return [rand_case(rng, 14) for _ in range(300)]
-    return [rand_case(rng, 16) for _ in range(2500)]
+        return ([rand_case(rng, 14) for _ in range(200)] + [fanout_case(rng) for _ in range(60)]
+                + [midfull_case(rng) for _ in range(60)])
+    return ([rand_case(rng, 16) for _ in range(2200)] + [fanout_case(rng) for _ in range(300)]
+            + [midfull_case(rng) for _ in range(300)])
 
 
 def run(binp, cases):
@@ -236,18 +306,25 @@ def dep_term(d):
         ["mkJoin %s %s %s" % (natlit(j["ds"]), nlit(j["pred"]), vlib.coq_bool(j["inv"])) for j in d.get("joins") or []]))
 
 
-def run_term(op, r, core):
+def run_term(op, r, core, midvs=None):
     fail = op.get("fail", -1)
-    return "TRun (mkTR %s %s %s %s %s %s %s %s %s)" % (
+    mid = op.get("mid") if not op.get("fix") else None
+    midt = "None"
+    if mid is not None:
+        vs = midvs if (r.get("middone") and midvs is not None) else mid["es"]
+        midt = "(Some (%s, %s, %s))" % (natlit(mid["after"]), natlit(mid["ds"]), vlib.coq_list([wver_term(v) for v in vs]))
+    return "TRun (mkTR %s %s %s %s %s %s %s %s %s %s %s %s)" % (
         vlib.coq_bool(op.get("full", False) and not op.get("fix", False)),
         "None" if (fail is None or fail < 0 or op.get("fix")) else "(Some %s)" % natlit(fail),
-        vlib.zlit(core),
+        vlib.zlit(core), midt,
         vlib.coq_bool(r.get("outcome") == "ok"),
         vlib.coq_list([nlit(x) for x in r.get("emitted") or []]),
         vlib.coq_list([natlit(x) for x in r.get("calls") or []]),
         nlit(r.get("foreign", 0)),
         vlib.zlit(r.get("main", -1)),
-        vlib.coq_list(["(%s, %s)" % (natlit(k), vlib.zlit(z)) for (k, z) in r.get("deps") or []]))
+        vlib.coq_list(["(%s, %s)" % (natlit(k), vlib.zlit(z)) for (k, z) in r.get("deps") or []]),
+        vlib.coq_bool(r.get("middone", False)),
+        vlib.coq_list([nlit(x) for x in r.get("late") or []]))
 
 
 def term(c, o):
@@ -268,8 +345,14 @@ def term(c, o):
             core = (cores[i - 1] if (i > 0 and i - 1 < len(cores)) else o.get("core0", 0))
             rs = runs[ri] if ri < len(runs) else [{"outcome": "missing"}]
             ri += 1
+            midvs = None
+            if op.get("mid"):
+                k = op["mid"]["ds"]
+                before = lens[i - 1][k] if (i > 0 and i - 1 < len(lens)) else 0
+                after = lens[i][k] if i < len(lens) else before
+                midvs = feeds[k][before:after] if k < len(feeds) else []
             for r in rs:
-                ops.append(run_term(op, r, core))
+                ops.append(run_term(op, r, core, midvs))
     return "mkTC %s %s %s %s %s %s %s" % (
         natlit(c["nds"]), natlit(c["main"]), vlib.coq_list([dep_term(d) for d in c["deps"]]),
         vlib.coq_bool(c["latest"]), natlit(c["batch"]),
@@ -356,6 +439,6 @@ def tags(c, o):
     for d in c["deps"]:
         t.append("shape=" + "".join("i" if j["inv"] else "o" for j in d["joins"]))
     for op, rs in zip([op for op in c["ops"] if op["op"] == "run"], o.get("runs") or []):
-        kind = "fix" if op.get("fix") else ("full" if op.get("full") else "incr")
+        kind = "fix" if op.get("fix") else (("full+write" if op.get("mid") else "full") if op.get("full") else "incr")
         t.append("run=%s/%s" % (kind, "fail" if any(r.get("outcome") != "ok" for r in rs) else "ok"))
     return sorted(set(t))
